@@ -7,7 +7,7 @@
 // IS [NOT] NULL / [NOT] IN after and before every operator; NOT and unary minus in front of every operator pair position;
 // cast / subscript / qualified operands (also chained: a cast that is subscripted, two subscripts, two casts) on either side of every operator; negative literals after every operator;
 // parenthesised operands (also in the middle of every operator pair); line breaks between an operator and a unary minus;
-// IN with one element.
+// IN with one element; IS / IS NOT with a general right operand before and after every operator and with cast / subscript / qualified / negated operands.
 // Also: [NOT] IN lists of one element inside larger expressions.
 // Also: 31 expressions with function arguments (list elements that start with a literal and go on with a cast / IS / IN / AND / subscript; array literals in parentheses),, CASE branches, IN lists, subscripts, casts and operator chains.
 include!("verif_grid_common.rs");
@@ -69,6 +69,21 @@ fn verif_grid() {
                 let (expr, reference) = (format!("a {} {} b", post, op), format!("((a {}) {} b)", post, op));
                 g.case(&format!("postfix-before-{}-{}", pi, i), move || same(&expr, &reference));
             }
+        }
+    }
+    // IS / IS NOT with a general right operand are binary operators of the comparison level (left-associative)
+    for (oi, is) in ["IS", "IS NOT"].iter().enumerate() {
+        for (i, (op, p)) in BIN.iter().enumerate() {
+            let (expr, reference) = (format!("a {} b {} c", is, op), if *p > 4 { format!("(a {} (b {} c))", is, op) } else { format!("((a {} b) {} c)", is, op) });
+            g.case(&format!("is-operand-before-{}-{}", oi, i), move || same(&expr, &reference));
+            let (expr, reference) = (format!("a {} b {} c", op, is), if *p >= 4 { format!("((a {} b) {} c)", op, is) } else { format!("(a {} (b {} c))", op, is) });
+            g.case(&format!("is-operand-after-{}-{}", oi, i), move || same(&expr, &reference));
+        }
+        for (ti, tight) in ["b::int", "xs[1]", "t.b", "-b", "b::text::int", "xs[1][2]", "(b)", "-b::int"].iter().enumerate() {
+            let (expr, reference) = (format!("a {} {}", is, tight), format!("(a {} ({}))", is, tight));
+            g.case(&format!("is-operand-tight-{}-{}", oi, ti), move || same(&expr, &reference));
+            let (expr, reference) = (format!("a {} {} AND c", is, tight), format!("((a {} ({})) AND c)", is, tight));
+            g.case(&format!("is-operand-tight-and-{}-{}", oi, ti), move || same(&expr, &reference));
         }
     }
     // NOT: weaker than comparisons, stronger than AND / OR
